@@ -25,9 +25,139 @@ SKIP = ("test_",)
 ENCODED = {}   # module name -> {file, sha256, functions:[(qualname, lineno, end)]}
 
 
+def _simple_arm(stmts):
+    """statements an if-arm may contain to be merged: assignments to plain names,
+    asserts, pass, nested ifs of the same kind"""
+    names = set()
+    for st in stmts:
+        if isinstance(st, ast.Pass):
+            continue
+        if isinstance(st, ast.Expr) and isinstance(st.value, ast.Constant):
+            continue
+        if isinstance(st, ast.Assert):
+            continue
+        if isinstance(st, ast.Assign):
+            for t in st.targets:
+                if isinstance(t, ast.Name):
+                    names.add(t.id)
+                elif isinstance(t, ast.Tuple) and all(isinstance(e, ast.Name) for e in t.elts):
+                    names.update(e.id for e in t.elts)
+                else:
+                    return None
+            if any(isinstance(n, (ast.Yield, ast.YieldFrom, ast.Await, ast.NamedExpr))
+                   for n in ast.walk(st.value)):
+                return None
+            continue
+        if isinstance(st, ast.AugAssign) and isinstance(st.target, ast.Name):
+            names.add(st.target.id)
+            continue
+        if isinstance(st, ast.If):
+            a = _simple_arm(st.body)
+            b = _simple_arm(st.orelse)
+            if a is None or b is None:
+                return None
+            names |= a | b
+            continue
+        return None
+    return names
+
+
+def _parse_stmts(src):
+    return ast.parse(src).body
+
+
 class Rewriter(ast.NodeTransformer):
     def __init__(self, extra=None):
         self.extra = extra
+        self._n = 0
+        self._in_func = 0
+
+    def visit_FunctionDef(self, node):
+        self._in_func += 1
+        self.generic_visit(node)
+        self._in_func -= 1
+        return node
+
+    def visit_Assert(self, node):
+        self.generic_visit(node)
+        # inside a speculative arm an assert becomes an obligation under the arm's guard
+        call = ast.Call(func=ast.Name(id="__sx_assert__", ctx=ast.Load()),
+                        args=[ast.Lambda(args=ast.arguments(posonlyargs=[], args=[], kwonlyargs=[],
+                                                            kw_defaults=[], defaults=[]),
+                                         body=node.test)], keywords=[])
+        new = ast.If(test=ast.Call(func=ast.Name(id="__sx_speculative__", ctx=ast.Load()), args=[], keywords=[]),
+                     body=[ast.Expr(value=call)], orelse=[node])
+        return ast.copy_location(new, node)
+
+    def visit_If(self, node):
+        if not self._in_func or getattr(node, "_sx_generated", False):
+            self.generic_visit(node)
+            return node
+        # decide on the original arms (nested ifs are rewritten afterwards)
+        a = _simple_arm(node.body)
+        b = _simple_arm(node.orelse)
+        self.generic_visit(node)
+        if a is None or b is None or not (a | b):
+            return node
+        names = sorted(a | b)
+        self._n += 1
+        k = self._n
+        c, old, av = "__sx_c%d" % k, "__sx_o%d" % k, "__sx_a%d" % k
+        tup = "(" + ", ".join(names) + ",)"
+        tmpl = """
+{c} = __sx_cond__(__SX_TEST__)
+if {c} is True:
+    __SX_BODY__
+elif {c} is False:
+    __SX_ELSE__
+else:
+    {old} = __sx_snapshot__(locals(), {names!r})
+    try:
+        __sx_push__({c}, True)
+        try:
+            __SX_BODY__
+        finally:
+            __sx_pop__()
+        {av} = __sx_snapshot__(locals(), {names!r})
+        {tup} = __sx_restore__({old})
+        __sx_push__({c}, False)
+        try:
+            __SX_ELSE__
+        finally:
+            __sx_pop__()
+        {tup} = __sx_merge__({c}, {av}, __sx_snapshot__(locals(), {names!r}))
+    except __sx_MergeFail__:
+        {tup} = __sx_restore__({old})
+        if __sx_truth__({c}):
+            __SX_BODY__
+        else:
+            __SX_ELSE__
+""".format(c=c, old=old, av=av, tup=tup, names=names)
+        stmts = _parse_stmts(tmpl)
+        import copy
+
+        class Fill(ast.NodeTransformer):
+            def visit_Name(self_, n):
+                if n.id == "__SX_TEST__":
+                    return copy.deepcopy(node.test)
+                return n
+
+            def visit_Expr(self_, n):
+                if isinstance(n.value, ast.Name) and n.value.id == "__SX_BODY__":
+                    return copy.deepcopy(node.body) or [ast.Pass()]
+                if isinstance(n.value, ast.Name) and n.value.id == "__SX_ELSE__":
+                    return copy.deepcopy(node.orelse) or [ast.Pass()]
+                return self_.generic_visit(n)
+        out = []
+        for st in stmts:
+            r = Fill().visit(st)
+            out.extend(r if isinstance(r, list) else [r])
+        for st in out:
+            for n in ast.walk(st):
+                if isinstance(n, ast.If):
+                    n._sx_generated = True
+                ast.copy_location(n, node) if hasattr(n, "lineno") or True else None
+        return out
 
     def visit_BinOp(self, node):
         self.generic_visit(node)
@@ -90,6 +220,8 @@ class _Loader(importlib.abc.Loader):
         g = module.__dict__
         g["__sx_mod__"] = models.sx_mod
         g["__sx_join__"] = models.sx_join
+        from . import merge as _merge
+        _merge.install(g)
         short = self.name.split(".")[-1]
         if short not in ("_version", "__init__") and self.name != PKG:
             models.install(g)
